@@ -124,6 +124,12 @@ impl GraphProp {
                                 // the containing directory, alone and together with the file
                                 variants.push((vec![".".into()], bits >> 42 & 1 == 1, false));
                                 variants.push((vec![".".into(), alias(&g0, set[0], (bits >> 14) as usize)], false, false));
+                                // the same directory reached twice (two spellings); the second
+                                // scan multiplies the order space, so only for <=2 files here
+                                // (larger ones in the sampled tier)
+                                if n <= 2 {
+                                    variants.push((vec![".".into(), "./".into()], bits >> 43 & 1 == 1, false));
+                                }
                             }
                         }
                     }
@@ -210,6 +216,11 @@ fn gen_sampled(which: Which) -> impl Fn(&mut Choices) -> GraphCase {
         if which == Which::C03 && c.chance(1, 3) {
             inputs.push((*c.pick(&[".", "s", "./s/t"])).to_string());
             recursive = c.chance(1, 2);
+            if c.chance(1, 2) {
+                // a second directory: the same one again, another spelling, or one that a
+                // recursive scan of the first also reaches
+                inputs.push((*c.pick(&[".", "s", "./s/t", "s/../s", "./"])).to_string());
+            }
         }
         let free = c.chance(1, 8);
         let threads = if free { 1 + c.below(16) } else { *c.pick(&[full_pool(&g), full_pool(&g), 1, 2, 3]) };
